@@ -147,12 +147,44 @@ class _AppendLoopToComprehension(ast.NodeTransformer):
         return node
 
 
+def _negate(test: ast.expr) -> ast.expr:
+    if isinstance(test, ast.UnaryOp) and isinstance(test.op, ast.Not):
+        return test.operand
+    n = ast.UnaryOp(op=ast.Not(), operand=test)
+    ast.copy_location(n, test)
+    return n
+
+
+class _PositiveTests(ast.NodeTransformer):
+    """`if not c: A else: B` -> `if c: B else: A` (plain if/else, no elif chain) and `a if not c else b` -> `b if c else a`; and an `if`
+    whose *else* side ends in a jump while its body does not is turned round, so that the jump side is the body
+    (`if c: REST else: ...return` -> `if not c: ...return else: REST`, which the next pass flattens)."""
+
+    def visit_If(self, node):
+        self.generic_visit(node)
+        plain_else = node.orelse and not (len(node.orelse) == 1 and isinstance(node.orelse[0], ast.If))
+        jumps = lambda blk: bool(blk) and isinstance(blk[-1], (ast.Return, ast.Raise, ast.Continue, ast.Break))
+        if plain_else and jumps(node.orelse) and not jumps(node.body):
+            node.test, node.body, node.orelse = _negate(node.test), node.orelse, node.body
+        elif plain_else and isinstance(node.test, ast.UnaryOp) and isinstance(node.test.op, ast.Not) and not (jumps(node.body) and not jumps(node.orelse)):
+            node.test, node.body, node.orelse = node.test.operand, node.orelse, node.body
+        return node
+
+    def visit_IfExp(self, node):
+        self.generic_visit(node)
+        if isinstance(node.test, ast.UnaryOp) and isinstance(node.test.op, ast.Not):
+            node.test, node.body, node.orelse = node.test.operand, node.orelse, node.body
+        return node
+
+
 def canonicalise(tree: ast.Module) -> ast.Module:
-    tree = _InlineReturnTemp().visit(tree)
-    tree = _IfAssignToIfExp().visit(tree)
-    tree = _AppendLoopToComprehension().visit(tree)
-    tree = _NoElseAfterJump().visit(tree)
-    ast.fix_missing_locations(tree)
+    for _ in range(2):  # the passes enable each other (a folded loop exposes a return temp, a turned `if` an else-after-jump)
+        tree = _PositiveTests().visit(tree)
+        tree = _InlineReturnTemp().visit(tree)
+        tree = _IfAssignToIfExp().visit(tree)
+        tree = _AppendLoopToComprehension().visit(tree)
+        tree = _NoElseAfterJump().visit(tree)
+        ast.fix_missing_locations(tree)
     return tree
 
 
